@@ -30,6 +30,7 @@ type Spec struct {
 	Params       map[string]string `json:"params,omitempty"`
 	DumpLog      bool              `json:"dump_log,omitempty"`
 	KnownSigs    []string          `json:"known_signatures,omitempty"` // "<prop>|<signature>" of recorded findings
+	Trace        bool              `json:"trace,omitempty"`            // determinism self-test: hash the full event log of every run
 }
 
 // Violation is one reported property violation.
@@ -81,6 +82,7 @@ type WorkerResult struct {
 	ShrinkTried int              `json:"shrink_attempts"`
 	ShrinkOK    int              `json:"shrink_accepted"`
 	Reproduced  bool             `json:"reproduced"` // replay mode
+	TraceHashes []string         `json:"trace_hashes,omitempty"`
 }
 
 // Run is the context of one simulated run handed to the harness.
@@ -295,8 +297,21 @@ func WorkerMain(h HarnessFunc) (ok bool, msg string) {
 		run := spec.Worker + k*spec.Workers
 		t := NewTape(spec.Seed, run)
 		arm(&spec, fmt.Sprintf("seed=%d run=%d", spec.Seed, run))
-		r, infra := exec(h, &spec, t, false)
+		r, infra := exec(h, &spec, t, spec.Trace)
 		disarm()
+		if spec.Trace && infra == nil {
+			hh := HashString(strings.Join(r.log, "\n"))
+			for _, v := range t.Used() {
+				hh = (hh ^ uint64(v)) * 1099511628211
+			}
+			st := make([]string, 0, len(r.stats))
+			for k, v := range r.stats {
+				st = append(st, fmt.Sprintf("%s=%d", k, v))
+			}
+			sort.Strings(st)
+			hh ^= HashString(strings.Join(st, ","))
+			res.TraceHashes = append(res.TraceHashes, fmt.Sprintf("run%d:%016x:log%d:tape%d:viol%d", run, hh, len(r.log), t.Pos(), len(r.viol)))
+		}
 		if infra != nil {
 			res.Infra = append(res.Infra, fmt.Sprintf("panic in harness seed=%d run=%d: %v\n%s", spec.Seed, run, infra.val, infra.stack))
 			write()
